@@ -134,6 +134,25 @@ func (namesStream) Execute(c Case) {
 				}
 			}
 		}
+		if cl, _ := c["clutter"].(bool); cl && !lastMissing {
+			// bystanders in the very directory that is written to: the file of the same stem with the other Spec extension
+			// (another Spec: vendor.com/dev.json's file vendor.com-dev.json next to vendor.com/dev's vendor.com-dev.yaml),
+			// files that look like leftovers of a writer, backups, hidden files. A write or a removal touches its own file only.
+			last := dirs[len(dirs)-1]
+			stem := strings.TrimSuffix(strings.TrimSuffix(name, ".json"), ".yaml")
+			twin := stem + ".json"
+			if !strings.HasSuffix(name, ".yaml") && !(filepath.Ext(name) != ".json" && filepath.Ext(name) != ".yaml") {
+				twin = stem + ".yaml"
+			}
+			if twin != name && twin != name+".yaml" && !strings.Contains(stem, "/") {
+				_ = os.WriteFile(filepath.Join(last, twin), []byte(`{"cdiVersion":"0.6.0","kind":"twin.com/x","devices":[{"name":"t","containerEdits":{"env":["T=w"]}}]}`), 0o644)
+			}
+			for _, fn := range []string{"spec.123456789.tmp", "spec.1.tmp", stem + ".bak", "." + stem + ".swp", stem + ".json.orig", "unrelated.txt"} {
+				if !strings.Contains(fn, "/") {
+					_ = os.WriteFile(filepath.Join(last, fn), []byte("bystander"), 0o644)
+				}
+			}
+		}
 		var cache *cdi.Cache
 		if hist, _ := c["history"].(bool); hist {
 			// the cache has a past: it was used with other directories (a Spec written there and removed again), a
